@@ -136,7 +136,7 @@ def generate_fixtures():
     build_driver()
     fx = os.path.join(VERIF, 'fixtures')
     h = hashlib.sha256()
-    for f in ('Cargo.toml', 'src/lib.rs'):
+    for f in ('Cargo.toml', 'src/lib.rs', 'flume/Cargo.toml', 'flume/src/lib.rs'):
         h.update(open(os.path.join(fx, f), 'rb').read())
     st = os.stat(DRIVER)
     h.update(('%d-%d' % (st.st_size, int(st.st_mtime))).encode())
